@@ -720,7 +720,9 @@ impl C13 {
           // a context literal parsed AND evaluated on a long-lived scope, as the service does with request bodies
           let ctxs = parr(plan, "ctxs");
           let ci = (pu64(op, "c") as usize) % ctxs.len();
-          let text = ctxs[ci].as_str().unwrap_or("{}").to_string();
+          let text = pstr(&ctxs[ci], "text").to_string();
+          let ctx_clock_bound = pbool(&ctxs[ci], "clock_bound");
+          let day = simrt::clock_days();
           let s = (pu64(op, "s") as usize) % scopes.len();
           let ho = std::mem::take(&mut handover);
           let before = snapshot(&scopes[s]);
@@ -735,15 +737,18 @@ impl C13 {
                 break;
               }
               c.inc("ctx.ok");
+              if ctx_clock_bound && ticking {
+                continue;
+              }
               let list = seen.entry((3, ci, s)).or_default();
-              if let Some((old, _)) = list.first() {
+              if let Some((old, _)) = list.iter().find(|(_, d)| !ctx_clock_bound || *d == day) {
                 if *old != v {
                   out.violation = Some(viol("value-not-repeatable", "context-literal-text", idx, format!("`{}` on scope {} gives {}", text, s, old), v.clone()));
                   break;
                 }
                 c.inc("ctx.repeated_and_compared");
               }
-              list.push((v, 0));
+              list.push((v, day));
             }
             Ok(Err(_)) => {
               // a failed parse promises nothing about the scope: rebuild it
@@ -937,7 +942,9 @@ impl Sim for C13 {
     for _ in 0..n_ctxs {
       let depth = rng.index(3) as u32;
       let mut g = Gen { rng: &mut rng, clock_bound: false };
-      ctxs.push(json!(g.context_text(depth)));
+      let text = g.context_text(depth);
+      let cb = g.clock_bound;
+      ctxs.push(json!({"text": text, "clock_bound": cb}));
     }
     let n_tables = rng.index(3);
     let tables: Vec<Value> = (0..n_tables).map(|_| json!(rng.index(TABLES.len()))).collect();
